@@ -311,7 +311,14 @@ class Base:
         if isinstance(f, FAll):
             c = z3.FreshConst(Int, f.var)
             rng = z3.And(self.z(f.lo) <= c, c < self.z(f.hi))
-            return self.prove(kind, label, f.body(c), props, finding, tuple(extra_pc) + (rng,), src)
+            try:
+                body = f.body(c)
+            except GenError:
+                # names undefined on this (early-return) path: fine only if the guard is infeasible here
+                if extra_pc and not self.feasible(z3.And(*extra_pc)):
+                    return
+                raise
+            return self.prove(kind, label, body, props, finding, tuple(extra_pc) + (rng,), src)
         if isinstance(f, FOr):
             ts = [self.f_to_term(p) for p in f.parts]
             if all(t is not None for t in ts):
